@@ -484,7 +484,11 @@ def c03(ctx):
     t1 = merge_tot(t1, t2, t3)
     ns, ne = ns + nsf + nsf2, ne + nef + nef2
     gold = golden_check(ctx)
-    cov = {"states": ns, "transitions": t1.get("targets_covered", 0), "traces_validated_against_impl": gold["validated"],
+    # concurrent mutating calls (race detector on): once all have returned, a copy of the file must hold exactly what the server
+    # serves -- saves that overlap must not leave an older snapshot behind
+    rcc, scc = conc_histories(ctx, "db", 1500 if th else 200, race=True, parts=16 if th else 8)
+    cov = {"states": ns, "transitions": t1.get("targets_covered", 0), "traces_validated_against_impl": gold["validated"] + scc["accepted"],
+           "concurrent_histories": scc["histories"],
            "samples": s1[:2] + gold["samples"], "restarts_after_operation": t1.get("reopens_after_op", 0),
            "golden_files": gold["files"], "model_transitions": ne, "exhaustive": bool(th),
            "explanation": "walk of the bounded Vault graph with db.Open on the same file/key after every call: projection incl. next-version "
